@@ -79,6 +79,7 @@ THEOREMS = [
     "JanetModel.Props.C11.phys_clone_safe",
     "JanetModel.Props.C11.phys_insert_safe",
     "JanetModel.Props.C11.phys_api_history_safe",
+    "JanetModel.Props.C11.stringend_rewrite_fits",
     "JanetModel.Props.C11.stack_push_in_bounds",
     "JanetModel.Props.C11.capacity_invariant",
     "JanetModel.Props.C11.consume_capacity",
